@@ -43,7 +43,7 @@ REGISTRY = dict(
     note=("Trusted: Coq 8.16.1 kernel (vm_compute, no native_compute), translate/py2coq.py + specs/runningmoments.py, harness/c15.py, Python/numpy/gymnasium. "
           "The epsilon prior is part of the statement ('equal the moments' is read as 'equal the moments of the stream merged with the prior of weight 1e-4'). "
           "Not verified: float64/float32 rounding (statistics compared at rel/abs 1e-9, float32 outputs at 1e-5), np.sqrt (hint checked by squaring inside Coq), "
-          "numpy axis handling / deepcopy / pickle (correspondence only); the terminal-observation transform is tied by correspondence only. "
+          "numpy axis handling / deepcopy / pickle (correspondence only). "
           "The executable model uses Qred-reduced fractions, proved equal to the specification model (C15_executable_variant). All C15 theorems are closed under the global context."),
     technique="machine-checked proof in Coq (field identities over Q, induction over batch lists and histories) + regenerated-fragment interface lemmas + differential correspondence",
 )
@@ -273,7 +273,45 @@ def _flat_one(kind, obs):
     return [float(x) for x in obs["a"]] + [float(x) for x in obs["b"]]
 
 
+LATE_NORM_OBS_SIG = "norm-obs-enabled-after-construction-raises"
+
+
+def late_norm_obs_class(case):
+    """precise predicate: constructed with norm_obs=False, a later toggle sets norm_obs=True and a reset/step follows"""
+    if case["kind"] != "vecnorm" or case["norm_obs"]:
+        return False
+    on = False
+    for op in case["ops"]:
+        if op[0] == "set":
+            on = bool(op[2])
+        elif on:
+            return True
+    return False
+
+
+def run_late_norm_obs(case):
+    gym, np, spaces, RunningMeanStd, DummyVecEnv, VecNormalize, sync_envs_normalization = _imports()
+    ArrEnv = make_env_class()
+    kind = case["obs_kind"]
+    venv = DummyVecEnv([(lambda sc=sc: ArrEnv(kind, sc)) for sc in case["scripts"]])
+    kw = {} if kind == "box" else {"norm_obs_keys": case["norm_obs_keys"]}
+    vn = VecNormalize(venv, training=case["training"], norm_obs=False, norm_reward=case["norm_reward"], **kw)
+    for k, op in enumerate(case["ops"]):
+        try:
+            if op[0] == "set":
+                vn.training, vn.norm_obs, vn.norm_reward = op[1], op[2], op[3]
+            elif op[0] == "reset":
+                vn.reset()
+            else:
+                vn.step(np.zeros(len(case["scripts"]), dtype=np.int64))
+        except AttributeError as e:
+            return {"late_norm_obs": f"op {k} ({op[0]}) raises AttributeError: {e}"}
+    return {"late_norm_obs": None}
+
+
 def run_vecnorm(case):
+    if late_norm_obs_class(case):
+        return run_late_norm_obs(case)
     gym, np, spaces, RunningMeanStd, DummyVecEnv, VecNormalize, sync_envs_normalization = _imports()
     ArrEnv = make_env_class()
     kind = case["obs_kind"]
@@ -440,6 +478,8 @@ def _ck(ev, case, chans):
 
 
 def exprs_vecnorm(case, impl):
+    if "late_norm_obs" in impl:
+        return ["true"]
     chans = impl["chan_norm"]
     n = len(case["scripts"])
     nchan = len(chans)
@@ -467,6 +507,10 @@ CHECK_NAMES = ["obs-statistics", "return-statistics", "returns-accumulator", "no
 def compare_vecnorm(case, impl, mv):
     import numpy as np
 
+    if "late_norm_obs" in impl:
+        if impl["late_norm_obs"]:
+            return [(LATE_NORM_OBS_SIG, "VecNormalize constructed with norm_obs=False has no obs_rms: after norm_obs is switched on the next reset/step fails: " + impl["late_norm_obs"])]
+        return []
     probs = []
     chans = impl["chan_norm"]
     nchan = len(chans)
@@ -587,6 +631,8 @@ COMPARE = {"rms": compare_rms, "vecnorm": compare_vecnorm}
 
 
 def nontrivial(case, impl):
+    if "late_norm_obs" in impl:
+        return False
     if case["kind"] == "rms":
         return len(case["split_a"]) >= 2 and case["split_a"] != case["split_b"]
     evs = impl["events"]
@@ -612,7 +658,7 @@ def run_cases(chk, cases):
 def main():
     chk = Check("C15", groups=["runningmoments"])
     chk.build_props()
-    n_cases = int(os.environ.get("VERIF_NCASES", 0)) or (300 if chk.tier == "quick" else 5000)
+    n_cases = int(os.environ.get("VERIF_NCASES", 0)) or (300 if chk.tier == "quick" else 2400)
     cases = []
     corpus = os.path.join(common.VERIF, "corpus", "C15.jsonl")
     if os.path.exists(corpus):
@@ -639,7 +685,7 @@ def main():
         if nontrivial(c, im):
             distinct.add(json.dumps({k: c[k] for k in c if k != "id"}, sort_keys=True))
         if probs:
-            oracle_bad = [p for p in probs if p[0].startswith("oracle-")]
+            oracle_bad = [p for p in probs if p[0].startswith("oracle-") or p[0] == LATE_NORM_OBS_SIG]
             sig = oracle_bad[0][0] if oracle_bad else "model-correspondence-" + probs[0][0]
             if sig in reported:
                 continue
@@ -665,8 +711,8 @@ def main():
         "float rounding is not modelled: statistics are compared at rel/abs 1e-9 except observation statistics of histories whose float32 batch mean/variance "
         "(RunningMeanStd.update calls np.mean/np.var on the float32 batch) is not exact, which are compared at 1e-5; returned float32 values at rel 1e-5 / abs 1e-6",
         "np.sqrt(var + epsilon) is not modelled: the harness passes the float square root as a hint and Coq checks hint^2 = var + epsilon at rel 1e-8",
-        "a VecNormalize constructed with norm_obs=False has no obs_rms; switching norm_obs on afterwards raises AttributeError and is not generated (norm_obs is toggled only on wrappers constructed with norm_obs=True)",
-        "the terminal-observation transform, deepcopy in normalize_obs, pickle and sync_envs_normalization are tied by correspondence and the Python oracle only",
+        "a VecNormalize constructed with norm_obs=False has no obs_rms; switching norm_obs on afterwards makes the next reset/step raise AttributeError: reproduced from corpus-late-norm-obs and reported as norm-obs-enabled-after-construction-raises; the generic generator toggles norm_obs only on wrappers constructed with norm_obs=True (histories in the class are recognised by a precise predicate)",
+        "deepcopy in normalize_obs, pickle and sync_envs_normalization are tied by correspondence and the Python oracle only (the terminal-observation transform is in the model: step_outputs)",
     ]
     return chk.finish()
 
